@@ -4,7 +4,7 @@
 use super::strings::sjis_encode;
 use crate::prng::Rng;
 
-#[derive(Clone, Debug)]
+#[derive(Clone, Debug, PartialEq)]
 pub struct Tex {
     pub name: String,
     pub width: usize,
@@ -135,7 +135,14 @@ pub fn bch(texs: &[Tex], rng: &mut Rng, shuffle: bool, new_header: bool) -> Buil
     if shuffle {
         rng.shuffle(&mut horder);
     }
-    for &i in &horder {
+    for (k, &i) in horder.iter().enumerate() {
+        // a texture that occurs twice in the list may be stored as one record referenced by two table slots
+        if shuffle {
+            if let Some(&j) = horder[..k].iter().find(|&&j| texs[j] == texs[i]) {
+                hdr_off[i] = hdr_off[j];
+                continue;
+            }
+        }
         if shuffle && rng.chance(1, 3) {
             contents.extend(std::iter::repeat(0x11).take(4 * rng.range(1, 3)));
         }
